@@ -1,4 +1,5 @@
 import PynModel.Core.Slice
+import PynModel.Kernels.Count
 /-!
 # `to_trial_tensor` (layout only): which sample goes to which cell
 `slices = [self.get_slice(s, e) for s, e in ep.values]; lengths = stop - start; n_t = max(lengths)`, then row `i`
@@ -22,5 +23,21 @@ def trialTensor (t : Array Int) (trials : List (Int × Int)) (alignEnd : Bool) :
   if sl.isEmpty then throw .value
   let nt := (sl.map fun p => (p.2 - p.1).toNat).foldl max 0
   pure (sl.map fun p => trialRow p.1.toNat (p.2 - p.1).toNat nt alignEnd)
+
+/-- `trial_count(ep, bin_size, align)`: `count(bin_size, ep)`, then per trial the bins whose centre lies in
+`[start, end]` (`count.get(start, end)`: two `searchsorted` on the bin centres, here doubled), written into a row of
+`n_t = max ceil((end + bin - start) / bin)` cells from the left or from the right, and finally the tensor is trimmed to
+the longest row.  A cell is `some count` or `none` (padding).  `np.max` of an empty array raises: `.error .assertion`. -/
+def trialCount (ts st en : Array Int) (hm : st.size = en.size) (bs : Int) (alignEnd : Bool) :
+    R (List (Array (Option Nat))) := do
+  let cnt ← jitbin ts (ts.map fun _ => 0) st en hm bs
+  let cen := cnt.map (·.1)
+  let sl := (List.range st.size).map fun i => (ssLeft cen (2 * st[i]!) 0, ssRight cen (2 * en[i]!) 0)
+  if sl.isEmpty then throw .assertion
+  let nt : Nat := ((List.range st.size).map fun i => ((en[i]! + bs - st[i]! + bs - 1) / bs).toNat).foldl max 0
+  let mx := (sl.map fun p => p.2 - p.1).foldl max 0
+  let rows := sl.map fun p =>
+    (trialRow p.1 (p.2 - p.1) nt alignEnd).map fun c => c.map fun k => (cnt.getD k (0, 0, 0)).2.1
+  pure (rows.map fun r => if alignEnd then r.extract (nt - mx) nt else r.extract 0 mx)
 
 end Pyn
